@@ -104,6 +104,11 @@ func drainN[K any](seq iter.Seq2[K, uint64], n int) {
 
 // CheckPurity brackets every kind of query and no-op update.
 func (s *Session[K]) CheckPurity(r *rng.R) {
+	// first: did the read-only calls of earlier check points affect what the tree answers now?
+	s.CheckQueryIndependence()
+	if s.Dead {
+		return
+	}
 	pool := s.K.Pool(r, 4)
 	st, has := s.pickStored(r)
 	probes := []struct {
@@ -217,5 +222,87 @@ func (s *Session[K]) CheckPurity(r *rng.R) {
 		if before != after {
 			s.violate("Insert of a present key changed more than that key's value", fmt.Sprintf("digest %#x", before), fmt.Sprintf("digest %#x", after), "")
 		}
+	}
+}
+
+// CheckQueryIndependence: "any number of read-only calls may be interleaved
+// anywhere in a history without affecting any later result". The mutating
+// calls of this session (which was queried heavily in between) are replayed
+// into a fresh tree that has never been queried; every observable result of
+// the two trees must then be identical.
+func (s *Session[K]) CheckQueryIndependence() {
+	if len(s.muts) >= 4096 || s.Dead {
+		return
+	}
+	fresh := s.K.New()
+	if s.guard("replay of the mutating calls into a fresh tree", func() {
+		for _, m := range s.muts {
+			if m.del {
+				fresh.Delete(s.K.Clone(m.k))
+			} else {
+				fresh.Insert(s.K.Clone(m.k), m.v)
+			}
+		}
+	}) {
+		return
+	}
+	s.log("compare with a never-queried tree built by the same %d mutating calls", len(s.muts))
+	s.Res.Evaluations++
+	s.Res.Inc("purity_query_independence_checks")
+	type obs struct {
+		what string
+		a, b string
+	}
+	var diffs []obs
+	cmp := func(what, a, b string) {
+		if a != b && len(diffs) < 3 {
+			diffs = append(diffs, obs{what, a, b})
+		}
+	}
+	show3 := func(k K, v uint64, ok bool) string {
+		if !ok {
+			return "none"
+		}
+		return fmt.Sprintf("%s=%d", s.K.Show(k), v)
+	}
+	if s.guard("queries on both trees", func() {
+		k1, v1, ok1 := s.T.Minimum()
+		k2, v2, ok2 := fresh.Minimum()
+		cmp("Minimum()", show3(k1, v1, ok1), show3(k2, v2, ok2))
+		k1, v1, ok1 = s.T.Maximum()
+		k2, v2, ok2 = fresh.Maximum()
+		cmp("Maximum()", show3(k1, v1, ok1), show3(k2, v2, ok2))
+		cmp("Size()", fmt.Sprint(s.T.Size()), fmt.Sprint(fresh.Size()))
+		collect := func(seq iter.Seq2[K, uint64]) string {
+			var ps []pair[K]
+			for k, v := range seq {
+				ps = append(ps, pair[K]{k, v})
+				if len(ps) > s.M.Len()+1 {
+					break
+				}
+			}
+			return s.showPairs(ps)
+		}
+		cmp("All()", collect(s.T.All()), collect(fresh.All()))
+		cmp("Backward()", collect(s.T.Backward()), collect(fresh.Backward()))
+		cmp("TopK(2)", collect(s.T.TopK(2)), collect(fresh.TopK(2)))
+		cmp("BottomK(2)", collect(s.T.BottomK(2)), collect(fresh.BottomK(2)))
+		for _, e := range s.M.Sorted() {
+			a, oka := s.T.Search(s.K.Clone(e.Key))
+			b, okb := fresh.Search(s.K.Clone(e.Key))
+			cmp("Search("+s.K.Show(e.Key)+")", fmt.Sprint(a, oka), fmt.Sprint(b, okb))
+		}
+		for _, d := range s.recentlyDeleted {
+			a, oka := s.T.Search(s.K.Clone(d))
+			b, okb := fresh.Search(s.K.Clone(d))
+			cmp("Search("+s.K.Show(d)+")", fmt.Sprint(a, oka), fmt.Sprint(b, okb))
+		}
+	}) {
+		return
+	}
+	if len(diffs) > 0 {
+		d := diffs[0]
+		s.violate("interleaved read-only calls affected a later result: "+d.what+" differs between this tree and a never-queried tree built by the same mutating calls",
+			"never-queried tree: "+d.b, "queried tree: "+d.a, "")
 	}
 }
